@@ -5,6 +5,8 @@ import warnings
 
 from hypothesis import strategies as st
 
+from vlib import sampler
+
 PID = 'C07'
 LEVEL = 'exploration'
 BUDGET = {'quick': 1500, 'thorough': 60000}
@@ -195,7 +197,8 @@ def verdicts(mod, wrap):
     extra = [(200 + i, v) for i, v in probe_values(wrap, deep, bad)[:1]] if deep is not None else []
     for i, v in probe_values(wrap, good, bad) + [(100 + i, v) for i, v in probe_values(wrap, sub, bad)[:2]] + extra:
         try:
-            r = mod.FUNC(v)
+            with sampler.draw(0):    # the same item of a multi-item container is inspected under both spellings
+                r = mod.FUNC(v)
             out.append((i, 'ok' if r is v else 'ok-but-changed'))
         except Exception as e:
             out.append((i, type(e).__name__))
